@@ -32,7 +32,7 @@ def classify(prop: str, violation: dict, features: set, findings: list):
     A finding matches on (property, failure class, all required features, optional substring of
     the `where` call site / detail).  Fixed entries never match."""
     for f in findings:
-        if f.get("status") != "open" or f.get("property") != prop:
+        if f.get("status") != "open" or prop not in ([f.get("property")] + list(f.get("also_properties", []))):
             continue
         if f.get("vclass") and f["vclass"] != violation.get("vclass"):
             continue
@@ -72,6 +72,13 @@ def main(argv=None):
         rec = worker.run_one(mod, rep["case"], 600)
         print(json.dumps({k: rec[k] for k in ("status", "violations", "features", "note")}, indent=1, default=str))
         if rec["status"] == "violation":
+            findings = load_findings()
+            feats = set(rec.get("features") or [])
+            keys = [classify(prop, v, feats, findings) for v in rec["violations"]]
+            for k in sorted({k for k in keys if k}):
+                print(f"KNOWN-FINDING: property={prop} {k}")
+            if all(keys):
+                return 0
             print(f"VIOLATION property={prop} replay={args.replay}")
             return 1
         return 0 if rec["status"] in ("ok", "refused", "skip") else 2
